@@ -49,7 +49,7 @@ type spec struct {
 	Wrap int `json:",omitempty"`
 }
 
-var writeKinds = []string{"insert", "insert", "update", "delete", "bulk", "bulk-big", "create-table", "drop-table", "create-index", "drop-index", "alter", "vacuum", "incr-vacuum", "delete-all", "update-grow", "vacuum-pagesize", "open-mid-transaction", "open-mid-transaction", "refused-read", "refused-read", "short-tail", "short-tail", "redefine-index", "redefine-index", "update-all", "update-all"}
+var writeKinds = []string{"insert", "insert", "update", "delete", "bulk", "bulk-big", "create-table", "drop-table", "create-index", "drop-index", "alter", "vacuum", "incr-vacuum", "delete-all", "update-grow", "vacuum-pagesize", "open-mid-transaction", "open-mid-transaction", "refused-read", "refused-read", "short-tail", "short-tail", "redefine-index", "redefine-index", "update-all", "update-all", "wal-excursion"}
 var readKinds = []string{"select", "select", "indexed", "rowid", "columns", "low-scan", "low-tables", "low-schema", "low-all", "repeat", "pk", "prepared", "select-in-lo-txn", "indexed-in-lo-txn", "low-all-in-hi-txn", "select-while-writer-open", "rowid-while-writer-open", "indexed-eq", "indexed-eq"}
 
 func TestC08History(t *testing.T) {
@@ -417,6 +417,44 @@ func run(r *vt.Run, t vt.TB, s spec) {
 			exec(fmt.Sprintf("DELETE FROM %s WHERE %s IN (SELECT %s FROM %s ORDER BY 1 LIMIT %d OFFSET %d)", tm.name, tm.orderBy(), tm.orderBy(), tm.name, 1+o.B%40, o.B%5))
 			history = append(history, "delete:"+tm.name)
 			note("dml")
+		case "wal-excursion":
+			// the file is in WAL mode for a while: the long-lived handles are
+			// refused (as they must be), the schema changes meanwhile, and the
+			// file comes back to rollback-journal mode. What the handles read
+			// afterwards is the file as it is then.
+			if w2open {
+				env.O.Close("w2")
+				w2open = false
+			}
+			if rows, err := env.O.Query("w", "PRAGMA journal_mode=WAL"); err != nil || len(rows) != 1 || string(rows[0][0].B) != "wal" {
+				r.Harness(t, "switch to WAL: %v %v", rows, err)
+			}
+			hi.Select("t0", func(sqlittle.Row) {}, "a") // (refused, or t0 is gone: either way not what is judged here)
+			if err := lo.RLock(); err == nil {
+				lo.Tables()
+				lo.RUnlock()
+			}
+			{
+				nt := &tableModel{name: fmt.Sprintf("t%d", nextTable), kind: o.B % 3}
+				nextTable++
+				nt.cols = nt.baseCols()
+				if exec(nt.createSQL()) {
+					tables = append(tables, nt)
+				}
+				if tm != nil {
+					cn := fmt.Sprintf("w%d", tm.added)
+					if exec(fmt.Sprintf("ALTER TABLE %s ADD COLUMN %s DEFAULT 'wal'", tm.name, cn)) {
+						tm.cols = append(tm.cols, cn)
+						tm.added++
+					}
+				}
+			}
+			if rows, err := env.O.Query("w", "PRAGMA journal_mode=DELETE"); err != nil || len(rows) != 1 || string(rows[0][0].B) != "delete" {
+				r.Harness(t, "switch back from WAL: %v %v", rows, err)
+			}
+			history = append(history, "wal-excursion")
+			note("ddl")
+			classes["wal-excursion-with-schema-change"] = true
 		case "update-all":
 			// every row changes: every leaf of the table (and of its indexes
 			// on that column) is rewritten, also those a long-lived handle
